@@ -109,50 +109,14 @@ def check(run):
                                                                              "impl": float(a[r, cc]), "model": float(b[r, cc]), "nb": c["nb"]}})
             run.cov["traces_validated_against_impl"] += 1
             rhs_lines.append("rhs " + " ".join([str(c["nb"]), common.fhex(c["T"])] + [common.fhex(x) for x in c["masses"]] + [common.fhex(x) for x in c["nd"]]))
-        # final formulae: model right-hand sides solved against the implementation's matrices, model formulae vs implementation outputs
-        rhs_out = common.run_driver("tr", rhs_lines)
-        vlines, vexp = [], []
-        for c, o in zip(cases, rhs_out):
-            nb = c["nb"]
-            v = [common.unhex(t) for t in o]
-            rD = np.array(v[:nb ** 3]).reshape(nb, nb, nb)
-            rT, rV = np.array(v[nb ** 3:nb ** 3 + nb]), np.array(v[nb ** 3 + nb:])
-            iq, iqh = tr.impl_matrices(c)
-            charges = [0] * (nb - 1) + [-1]
-            duck = tr.Duck(c["masses"], c["nd"], c["T"], charges)
-            rho, ntot = duck.calculate_density(), float(np.sum(c["nd"]))
-            try:
-                c0 = np.zeros((nb, nb))
-                for i in range(nb):
-                    for j in range(nb):
-                        b = np.zeros(4 * nb)
-                        b[:nb] = rD[i, j]
-                        c0[i, j] = np.linalg.solve(iq, b)[i]
-                b = np.zeros(4 * nb)
-                b[nb:2 * nb] = rT
-                a = np.linalg.solve(iq, b).reshape(4, nb)
-                b = np.zeros(2 * nb)
-                b[:nb] = rV
-                bb = np.linalg.solve(iqh, b).reshape(2, nb)
-                D, DT, eta, sig, _ = impl_outputs(c, charges)
-            except np.linalg.LinAlgError:
-                continue
-            toks = [str(nb), common.fhex(c["T"]), common.fhex(rho), common.fhex(ntot)] + [common.fhex(x) for x in c["masses"]] + \
-                   [common.fhex(x) for x in c["nd"]] + [common.fhex(x) for x in charges] + [common.fhex(x) for x in c0.ravel()] + \
-                   [common.fhex(x) for x in a[0]] + [common.fhex(x) for x in a[1]] + [common.fhex(x) for x in bb[0]]
-            vlines.append("values " + " ".join(toks))
-            vexp.append((nb, D, DT, eta, sig))
-        vout = common.run_driver("tr", vlines) if vlines else []
-        for (nb, D, DT, eta, sig), o in zip(vexp, vout):
-            v = [common.unhex(t) for t in o]
-            mD, mDT = np.array(v[:nb * nb]).reshape(nb, nb), np.array(v[nb * nb:nb * nb + nb])
-            meta, msig = v[nb * nb + nb], v[nb * nb + nb + 2]
-            e = max(float(np.max(np.abs(mD - D) / max(np.max(np.abs(D)), 1e-300))), float(np.max(np.abs(mDT - DT) / max(np.max(np.abs(DT)), 1e-300))),
-                    common.relerr(meta, eta), abs(msig - sig) / max(abs(sig), np.max(np.abs(D)) * 1e-30, 1e-300) if np.isfinite(sig) else 0.0)
-            if e > 1e-7:
-                dis += 1
-                if not any(b.get("stage") == "correspondence" for b in broken):
-                    broken.append({"stage": "correspondence", "detail": {"what": "final formulae (right-hand sides / prefactors)", "error": e}})
+        # final formulae: model right-hand sides solved against the implementation's matrices, model formulae vs implementation outputs;
+        # plus mixtures with collision integrals spread over five decades, selected for genuinely negative diffusion coefficients
+        neg = tr.negative_D_cases(rng, 6 if thorough else 3, 400 if thorough else 150)
+        run.cov["cases_with_negative_diffusion_coefficients"] = len(neg)
+        fdis = tr.final_formulae(run, cases + neg)
+        dis += len(fdis)
+        if fdis and not any(b.get("stage") == "correspondence" for b in broken):
+            broken.append({"stage": "correspondence", "detail": fdis[0]})
         run.cov["correspondence_disagreements"] = dis
     # V: the identities on the implementation
     for c in cases:
